@@ -116,7 +116,7 @@ func (rt *stubRT) RoundTrip(req *http.Request) (*http.Response, error) {
 		return mkResp(req, 200, "healthy"), nil
 	}
 	st.hits++
-	if st.hold {
+	if st.hold || req.Header.Get("X-Verif-Hold") != "" {
 		st.inflight++
 		if s := vrt.Cur(); s != nil {
 			s.WaitFor("transport-gate:"+st.name, func() bool { return st.open > 0 })
@@ -278,6 +278,56 @@ func (k *kit) requestWith(client string, h http.Handler, edit func(*http.Request
 // (concurrent scenarios): the mode travels in a request header the stub honours.
 func (k *kit) requestMode(client, mode string) reqResult {
 	return k.requestWith(client, nil, func(r *http.Request) { r.Header.Set("X-Verif-Mode", mode) })
+}
+
+// held is a client request kept in flight at its backend until released.
+type held struct {
+	th   *vrt.Thread
+	res  reqResult
+	done bool
+	at   *stub // backend it is parked at (nil if it never reached one)
+}
+
+// startHeld starts a request on its own thread and lets it run until it parks at a
+// transport gate (or finishes, e.g. with 503). Sequential harnesses only (Branch off).
+func (k *kit) startHeld(client string) *held {
+	h := &held{}
+	before := k.inflightVector()
+	h.th = k.s.Spawn("held", func() {
+		h.res = k.requestWith(client, nil, func(r *http.Request) { r.Header.Set("X-Verif-Hold", "1") })
+		h.done = true
+	})
+	k.s.Settle()
+	after := k.inflightVector()
+	for i := range after {
+		if after[i] > before[i] {
+			h.at = k.stubs[i]
+		}
+	}
+	return h
+}
+
+// release lets one held request of the stub proceed and waits until it has finished.
+func (k *kit) release(st *stub) {
+	st.open++
+	k.s.Settle()
+}
+
+func (k *kit) inflightVector() []int {
+	out := make([]int, len(k.stubs))
+	for i, st := range k.stubs {
+		out[i] = st.inflight
+	}
+	return out
+}
+
+func (k *kit) backendByName(name string) *Backend {
+	for _, b := range k.lb.strategy.GetBackends() {
+		if b.Name == name {
+			return b
+		}
+	}
+	return nil
 }
 
 func (k *kit) hitsVector() []int {
